@@ -14,7 +14,7 @@ func init() {
 		Min:   6,
 		Doc: "dial-side connection ownership in ProbeAndDial: every *quic.Conn obtained from a successful Transport.Dial is, on every path, either closed or handed to the caller through a send that is reachable only via an atomic election " +
 			"(CompareAndSwap / sync.Once / mutex-guarded flag) - a non-blocking send into a buffered channel from which the caller receives once is not an election: with capacity c and r receives, c+r concurrent senders succeed; " +
-			"on its give-up arms (cancel, all-done) the caller itself takes part in the election and closes or returns a connection that won concurrently; losers are cancelled (the child context's cancel is deferred). " +
+			"on its give-up arms (cancel, all-done) the caller itself takes part in the election and closes or returns a connection that won concurrently; losers are not cancelled by the winner's return (losers-end, F56): the dial context is made from context.WithoutCancel and its cancel function is used only where the caller gave up or behind the wait for all dials - a loser runs to its end and closes itself as race_lost. " +
 			"Accept side: a connection that loses the receiver's local accept/dial race is closed in the default arm of its hand-over select",
 		Run: runWinner,
 	})
@@ -27,29 +27,111 @@ func runWinner(c *Ctx) {
 		c.MissingAnchor("ice.(*Prober).ProbeAndDial")
 		return
 	}
-	// deferred cancel of the child context
+	// (losers-end, F56) a dial that loses is not cancelled by the return of the winner: a cancelled dial is torn down without a word to
+	// the peer, which may have accepted it already. The context handed to Transport.Dial is therefore detached from the caller's
+	// (context.WithoutCancel) and its cancel function is neither deferred in ProbeAndDial / the probing round nor called on the path
+	// that returns the winner; it is called where the caller gave up (`case <-ctx.Done()`) or after every dial has ended (WaitGroup.Wait).
 	{
-		info := pd.Info()
-		var cancelObj types.Object
-		deferred := false
-		ast.Inspect(pd.Body, func(n ast.Node) bool {
-			switch s := n.(type) {
-			case *ast.FuncLit:
-				return false
-			case *ast.AssignStmt:
-				if len(s.Rhs) == 1 && len(s.Lhs) == 2 {
-					if call, ok := ast.Unparen(s.Rhs[0]).(*ast.CallExpr); ok && (calleeIs(info, call, "context", "WithCancel") || calleeIs(info, call, "context", "WithTimeout")) {
-						cancelObj = ObjOf(info, s.Lhs[1])
+		ndial := 0
+		for _, f := range allKids(pd) {
+			info := f.Info()
+			InspectNoLits(f.Body, func(n ast.Node) bool {
+				call, ok := n.(*ast.CallExpr)
+				if !ok || len(call.Args) < 1 {
+					return true
+				}
+				fn := Callee(info, call)
+				if fn == nil || fn.Name() != "Dial" || fn.Pkg() == nil || !strings.HasSuffix(fn.Pkg().Path(), "quic-go") {
+					return true
+				}
+				ndial++
+				key := fmt.Sprintf("losers-end/dial#%d", ndial)
+				ctxObj := ObjOf(info, call.Args[0])
+				if ctxObj == nil {
+					c.Unknown(key, call.Pos(), "the context of Transport.Dial is not a variable")
+					return true
+				}
+				own := owningFunc(f, ctxObj)
+				detached := false
+				var cancelObj types.Object
+				if own != nil {
+					ast.Inspect(own.Body, func(m ast.Node) bool {
+						as, ok := m.(*ast.AssignStmt)
+						if !ok || len(as.Rhs) != 1 || ObjOf(own.Info(), as.Lhs[0]) != ctxObj {
+							return true
+						}
+						ast.Inspect(as.Rhs[0], func(x ast.Node) bool {
+							if c2, ok := x.(*ast.CallExpr); ok && calleeIs(own.Info(), c2, "context", "WithoutCancel") {
+								detached = true
+							}
+							return true
+						})
+						if len(as.Lhs) == 2 {
+							cancelObj = ObjOf(own.Info(), as.Lhs[1])
+						}
+						return true
+					})
+				}
+				if !detached {
+					c.Bad(key, call.Pos(), "the dials run under a context that ends with the caller's (`"+ctxObj.Name()+"` is not made from context.WithoutCancel): the callers release their context right after ProbeAndDial returned, "+
+						"a losing dial whose handshake has just completed is then torn down without a CONNECTION_CLOSE and the listener keeps it as an established, silent connection instead of seeing it closed as race_lost")
+					return true
+				}
+				// uses of the cancel function
+				bad := ""
+				if cancelObj != nil {
+					for _, h := range allKids(pd) {
+						hinfo := h.Info()
+						var stack []ast.Node
+						ast.Inspect(h.Body, func(m ast.Node) bool {
+							if m == nil {
+								stack = stack[:len(stack)-1]
+								return true
+							}
+							stack = append(stack, m)
+							if lit, ok := m.(*ast.FuncLit); ok && lit != h.Lit {
+								stack = stack[:len(stack)-1]
+								return false
+							}
+							id, ok := m.(*ast.Ident)
+							if !ok || hinfo.Uses[id] != cancelObj {
+								return true
+							}
+							okUse := false
+							for _, s := range stack {
+								if cc, ok := s.(*ast.CommClause); ok && cc.Comm != nil {
+									if es, ok := cc.Comm.(*ast.ExprStmt); ok && strings.HasSuffix(types.ExprString(es.X), ".Done()") {
+										okUse = true // the caller gave up
+									}
+								}
+							}
+							// after <WaitGroup>.Wait() in the same literal
+							if !okUse && h.Lit != nil {
+								InspectNoLits(h.Body, func(x ast.Node) bool {
+									if c3, ok := x.(*ast.CallExpr); ok && c3.End() < id.Pos() {
+										if fn := Callee(hinfo, c3); fn != nil && fn.Name() == "Wait" && fn.Pkg() != nil && fn.Pkg().Path() == "sync" {
+											okUse = true
+										}
+									}
+									return true
+								})
+							}
+							if !okUse {
+								bad = p.Pos(id.Pos())
+							}
+							return true
+						})
 					}
 				}
-			case *ast.DeferStmt:
-				if ObjOf(info, s.Call.Fun) == cancelObj && cancelObj != nil {
-					deferred = true
-				}
-			}
-			return true
-		})
-		c.Check(deferred, "losers-cancelled", pd.Pos(), "the dial context is a child context whose cancel is deferred: returning cancels every dial still in flight", "ProbeAndDial does not defer the cancel of its dial context: losing dials keep running after the winner was returned")
+				c.Check(bad == "", key, call.Pos(), "the dial context is detached from the caller's and cancelled only where the caller gave up or after every dial ended",
+					"the cancel function of the dial context is used at "+bad+", outside the give-up clause and not behind the wait for all dials: a return with the winner cancels the dials that lost, "+
+						"one whose handshake has just completed is torn down silently and stays open at the listener")
+				return true
+			})
+		}
+		if ndial == 0 {
+			c.Bad("losers-end/none", pd.Pos(), "found no Transport.Dial under ProbeAndDial")
+		}
 	}
 	var all []*FuncInfo
 	var collect func(f *FuncInfo)
